@@ -158,12 +158,19 @@ func c10LockWait(e *env, lc *libConn, i int, o c10Op) string {
 	}
 	third := []byte(fmt.Sprintf("third message of op %d", i))
 	var cerr error
-	cd := e.Call(func() { cerr = conn.Write(base, websocket.MessageBinary, third) })
-	synctest.Wait()
-	select {
-	case <-cd:
-		return fmt.Sprintf("op %d lockwait: after a waiting Write gave up (%v), the next Write did not wait for the open message any more (err=%v): the message lock was released by a call that never held it", i, berr, cerr)
-	default:
+	// withThird: a third Write (live context) queues before the open message continues. Without it the
+	// open message continues right after the second Write gave up: whatever that call left behind in
+	// the connection's shared writer (its context, say) is still there.
+	withThird := o.CtlInside
+	cd := make(<-chan struct{})
+	if withThird {
+		cd = e.Call(func() { cerr = conn.Write(base, websocket.MessageBinary, third) })
+		synctest.Wait()
+		select {
+		case <-cd:
+			return fmt.Sprintf("op %d lockwait: after a waiting Write gave up (%v), the next Write did not wait for the open message any more (err=%v): the message lock was released by a call that never held it", i, berr, cerr)
+		default:
+		}
 	}
 	d = e.Call(func() {
 		if _, aerr = w.Write(body[half:]); aerr == nil {
@@ -171,7 +178,10 @@ func c10LockWait(e *env, lc *libConn, i int, o c10Op) string {
 		}
 	})
 	if !within(d, 10*time.Second) || aerr != nil {
-		return fmt.Sprintf("op %d lockwait: finishing the first message failed: %v", i, aerr)
+		return fmt.Sprintf("op %d lockwait: finishing the first message failed after a Write of another goroutine had given up waiting for it (%v): %v", i, berr, aerr)
+	}
+	if !withThird {
+		cd = e.Call(func() { cerr = conn.Write(base, websocket.MessageBinary, third) })
 	}
 	if !within(cd, 10*time.Second) || cerr != nil {
 		return fmt.Sprintf("op %d lockwait: the Write that waited with a live context failed: %v", i, cerr)
